@@ -11,7 +11,7 @@ from nix_manipulator import parse
 from nix_manipulator.parser import parse_to_ast
 seed, N = int(sys.argv[1]), int(sys.argv[2])
 R = random.Random(seed * 23 + 20)
-viol, dist = [], {}
+viol, dist, known = [], {}, {}
 def leaves(n, out):
     if n.child_count == 0 or n.type in ('string_expression', 'indented_string_expression', 'comment'):
         if n.end_byte > n.start_byte: out.append(n)
@@ -39,6 +39,8 @@ def texts():
             for tl in TAILS:
                 yield 'lineend-tail', b2 + tl
                 yield 'lineend-head', tl + b2 + '\n'
+                if tl in (' ', '\n', '\r\n', '\t'): 
+                    for tl2 in ('\r\n\r\n', '\n\r\n', '\n\n', '\r'): yield 'lineend-both', tl + b2 + tl2
     # quoted attribute names over every character class, in every place a name can stand (fifth round of seeds: a lone `$` in a
     # quoted name made the attrpath scanner spin); deterministic short names plus seeded longer ones
     NCH = ['a', '$', '{', '}', '"', '\\\\', '.', ' ', "'", '#', '/', '*', '=', ';', 'é', '\\n', '-', '0']
@@ -79,6 +81,9 @@ for kind, t in texts():
         slow += 1; viol.append({'what': 'parse/rebuild did not finish within 10 s on a %d-byte input of the linear families' % len(t), 'input': t[:300], 'kind': kind}); continue
     except ValueError: dist['raises ValueError'] = dist.get('raises ValueError', 0) + 1
     except RecursionError: viol.append({'what': 'RecursionError inside the nesting bound', 'input': t[:300], 'kind': kind})
+    except IndexError as e:
+        if t[:1].isspace() and '\r' in t: known['F-49'] = known.get('F-49', 0) + 1          # listed: leading whitespace shifts the offsets, a CR in the final gap runs off the end
+        else: viol.append({'what': 'parse/rebuild raises IndexError: %s' % str(e)[:100], 'input': t[:400], 'kind': kind})
     except Exception as e: viol.append({'what': 'parse/rebuild raises %s: %s' % (type(e).__name__, str(e)[:100]), 'input': t[:400], 'kind': kind})
     finally: signal.alarm(0)
-print(json.dumps({'evaluations': sum(v for k, v in dist.items() if k != 'raises ValueError'), 'distinct': len(dist), 'distribution': dist, 'violations': viol[:5], 'n_violations': len(viol), 'samples': [{'kind': 'insert', 'input': '{ a = in 1; }'}]}))
+print(json.dumps({'evaluations': sum(v for k, v in dist.items() if k != 'raises ValueError'), 'distinct': len(dist), 'distribution': dist, 'violations': viol[:5], 'n_violations': len(viol), 'known_hits': known, 'samples': [{'kind': 'insert', 'input': '{ a = in 1; }'}]}))
